@@ -23,7 +23,41 @@ struct TinyOp
     void set_shift(const typename Eigen::NumTraits<S>::Real&, const typename Eigen::NumTraits<S>::Real&) {}
 };
 using Op = TinyOp<double>;
+// Environment stub (rvalue-operator constructor of HermEigsBase, the one the five generalized solver classes go through): the
+// container the base class moves an rvalue operator into is modelled as a single inline slot, so that no heap allocation of
+// libstdc++'s std::vector stands between the constructor's argument checks and the IR executor (which has no memory model).
+// Only this wrapper's operator type is affected; HermEigsBase's own code is the real one.
+struct RvalOp : TinyOp<double>
+{
+};
+namespace std {
+template <>
+class vector<RvalOp>
+{
+    RvalOp slot{};
+
+public:
+    vector() = default;
+    vector(vector&& o) noexcept : slot(o.slot) {}
+    vector(const vector&) = default;
+    template <typename... A>
+    RvalOp& emplace_back(A&&... a)
+    {
+        slot = RvalOp(std::forward<A>(a)...);
+        return slot;
+    }
+    RvalOp& front() { return slot; }
+    const RvalOp& front() const { return slot; }
+};
+}  // namespace std
 extern "C" void sink(void*);
+extern "C" __attribute__((noinline)) void w_HermEigsBase_rvalue(long n, long nev, long ncv)
+{
+    RvalOp op;
+    op.n = n;
+    Spectra::HermEigsBase<RvalOp, Spectra::IdentityBOp> e(std::move(op), Spectra::IdentityBOp(), nev, ncv);
+    sink(&e);
+}
 #define WRAP3(NAME, ...)                                                              \
     extern "C" __attribute__((noinline)) void NAME(long n, long nev, long ncv)        \
     {                                                                                 \
